@@ -11,6 +11,7 @@ length of the history or on the run numbers: since the run-10000 fix run numbers
 import GlotaranProofs.Lemmas.C18
 import GlotaranProofs.Lemmas.C18FS
 import GlotaranProofs.Lemmas.C18Plugin
+import GlotaranProofs.Lemmas.C18Tree
 import GlotaranModel.Generated.C18
 namespace Glotaran.C18
 
@@ -384,10 +385,11 @@ theorem project_writers_pass_allow_through :
 
 /-- (regenerated constants) the regular expressions and f-strings of the source are the ones
     `hasRunSuffix`, `endsWithRunSpecifier`, `isRunOf`, `runName` model (after the run-10000 fix:
-    four *or more* digits everywhere) -/
+    four *or more* digits everywhere; after result-name-subfolder: the run prefix `f"{base}_run_"` is read as a
+    path and its last component, escaped, is followed by the digits) -/
 theorem source_patterns_are_the_modelled_ones :
     Generated.classPatterns = [("result_pattern", ".+_run_\\d{4,}$"), ("run_specifier_pattern", "_run_\\d{4,}$")] ∧
-    Generated.previousFilter = [["{re.escape()}", "_run_(\\d{4,})"]] ∧
+    Generated.previousFilter = [["{}", "_run_"], ["{re.escape()}", "(\\d{4,})"]] ∧
     (∀ fmt ∈ Generated.runNameFormats, fmt = ["{}", "_run_0000"] ∨ fmt = ["{}", "_run_", "{:04}"]) ∧
     Generated.runNameFormats.length = 2 ∧
     Generated.latestSubPatterns = [("get_latest_result_path", "run_specifier_pattern"),
@@ -793,5 +795,217 @@ example : items [⟨"a_run_0001".toList, .run 2⟩, ⟨"a_run_0000".toList, .run
 
 /-- with a dot in the name the key is cut (`Path.stem`) -/
 example : items [⟨"a.b_run_0000".toList, .run 1⟩] = ([("a".toList, "a.b_run_0000".toList)], 0) := by decide
+
+
+/-! ## (b') result names with path separators (`Project.optimize("sub/model")`), aborted saves
+
+`RTree` is everything below `results/`; a result name is read the way pathlib reads `f"{name}_run_"`
+(`folderOf`, `leafOf`; absolute names and names with a `..` part are rejected with ValueError — `nameRejected`).
+`WFTree`: every entry lies inside a folder (true for the empty results folder and kept by every operation:
+`tree_wf_kept`). -/
+
+/-- the empty results folder is well-formed and every `save` / aborted save keeps it so: the hypothesis
+    `WFTree` of the theorems below holds along every history -/
+theorem tree_wf_kept : WFTree [] ∧
+    (∀ (t : RTree) (base : Name) (payload : Nat), WFTree t → WFTree (saveT t base payload).1) ∧
+    (∀ (t : RTree) (base : Name), WFTree t → WFTree (saveAbortedT t base).1) :=
+  ⟨wfTree_nil, fun t base payload h => saveT_wf t h base payload, fun t base h => saveAbortedT_wf t h base⟩
+
+def exTree : RTree := [(["sub".toList, "m_run_0000".toList], .run 1), (["sub".toList], .emptyDir),
+  (["m_run_0003".toList], .run 2), (["blocker".toList], .file)]
+
+example : WFTree exTree := wfTree_of_check exTree (by decide)
+
+/-- **fresh, strictly increasing run numbers for every result name the code accepts** — names with `/`, with a
+    trailing `/`, with `.` or empty components included: the folder of the next run does not exist, its name is
+    `f"{leaf}_run_{k:04}"` inside the sub folder the name points to, `create_result_run_name` returns the text
+    `f"{name}_run_{k:04}"` with the same `k`, and `k` exceeds the number of every earlier run of that name. -/
+theorem run_numbers_fresh (t : RTree) (hwf : WFTree t) (base : Name) (hacc : nameRejected base = false) :
+    kindAt t (nextRunPath t base) = none ∧
+    ∃ k, createRunNameT t base = some (runName base k) ∧
+      nextRunPath t base = folderOf base ++ [runName (leafOf base) k] ∧
+      ∀ ps, previousT t base = some ps → ∀ p ∈ ps, ∃ l, p = folderOf base ++ [l] ∧ isRunOf (leafOf base) l = true ∧
+        runNumber (leafOf base) l < k := by
+  refine ⟨nextRunPath_absent t hwf base, nextRunNumber t base, ?_, ?_, ?_⟩
+  · simp [createRunNameT, hacc]
+  · simp [nextRunPath, nextRunLeaf_eq]
+  · intro ps hps p hp
+    simp only [previousT, hacc, Bool.false_eq_true, if_false, Option.some.injEq] at hps
+    subst hps
+    obtain ⟨l, hl, rfl⟩ := List.mem_map.mp hp
+    refine ⟨l, rfl, ((mem_previous _ _ _).mp hl).2, ?_⟩
+    obtain ⟨j, hj, hlt⟩ := createRunName_spec (listingAt t (folderOf base)) (leafOf base)
+    have hj' : nextRunLeaf t base = runName (leafOf base) j := hj
+    rw [nextRunLeaf_eq] at hj'
+    rw [runName_inj _ _ _ hj']
+    exact hlt l hl
+
+/-- the reported history: `sub/m` is optimised for the second time -/
+example : nameRejected "sub/m".toList = false ∧ folderOf "sub/m".toList = ["sub".toList] ∧ leafOf "sub/m".toList = "m".toList ∧
+    createRunNameT exTree "sub/m".toList = some "sub/m_run_0001".toList ∧
+    nextRunPath exTree "sub/m".toList = ["sub".toList, "m_run_0001".toList] ∧
+    createRunNameT exTree "m".toList = some "m_run_0004".toList ∧
+    createRunNameT exTree "sub/".toList = some "sub/_run_0000".toList ∧
+    createRunNameT exTree "./sub//m".toList = some "./sub//m_run_0001".toList ∧
+    createRunNameT exTree "../m".toList = none ∧ createRunNameT exTree "/m".toList = none ∧
+    createRunNameT exTree "sub/../m".toList = none ∧ createRunNameT exTree "..".toList = some ".._run_0000".toList := by decide
+
+/-- regression (result-name-subfolder), the code before the fix: the runs of every name were looked for at the top
+    level of `results/` under the full text of the name, so a name with a sub folder never found its runs -/
+def legacyNextRunPath (t : RTree) (base : Name) : RPath :=
+  folderOf base ++ [runName (leafOf base) (match (previous (listing t []) base).getLast? with
+    | none => 0
+    | some l => runNumber base l + 1)]
+
+example : legacyNextRunPath exTree "sub/m".toList = ["sub".toList, "m_run_0000".toList] ∧
+    kindAt exTree (legacyNextRunPath exTree "sub/m".toList) = some (.run 1) := by decide
+
+/-- **every optimize run is stored** (the defect: the second run of `sub/m` was refused with FileExistsError):
+    on a well-formed tree `save` never ends in the refusal of the overwrite protection; it rejects exactly the names
+    that leave the results folder, is blocked exactly when a plain file is in the way of the sub folder (both leave
+    the tree as it is), and otherwise stores the run in the fresh folder. -/
+theorem optimize_stores_run (t : RTree) (hwf : WFTree t) (base : Name) (payload : Nat) :
+    (∀ p, (saveT t base payload).2 ≠ .fileExists p) ∧
+    ((nameRejected base = true ∧ saveT t base payload = (t, .rejected)) ∨
+     (nameRejected base = false ∧ mkdirsT t [] (folderOf base) = none ∧
+        saveT t base payload = (t, .blocked (nextRunPath t base))) ∨
+     (nameRejected base = false ∧ (saveT t base payload).2 = .saved (nextRunPath t base) ∧
+        kindAt (saveT t base payload).1 (nextRunPath t base) = some (.run payload))) := by
+  by_cases hacc : nameRejected base = false
+  · rw [saveT_eq t hwf base payload hacc]
+    cases hm : mkdirsT t [] (folderOf base) with
+    | none => exact ⟨by intro p h; simp at h, Or.inr (Or.inl ⟨hacc, rfl, rfl⟩)⟩
+    | some t1 => exact ⟨by intro p h; simp at h, Or.inr (Or.inr ⟨hacc, rfl, kindAt_setAt_self _ _ _⟩)⟩
+  · simp only [Bool.not_eq_false] at hacc
+    have : saveT t base payload = (t, .rejected) := by simp [saveT, hacc]
+    exact ⟨by intro p h; rw [this] at h; simp at h, Or.inl ⟨hacc, this⟩⟩
+
+example : saveT exTree "sub/m".toList 9 = (setAt exTree ["sub".toList, "m_run_0001".toList] (.run 9),
+      .saved ["sub".toList, "m_run_0001".toList]) ∧
+    (saveT exTree "new/deeper/m".toList 9).2 = .saved ["new".toList, "deeper".toList, "m_run_0000".toList] ∧
+    (saveT exTree "blocker/m".toList 9) = (exTree, .blocked ["blocker".toList, "m_run_0000".toList]) ∧
+    (saveT exTree "../m".toList 9) = (exTree, .rejected) := by decide
+
+/-- **earlier runs stay unchanged** in the tree: storing a run (of any name, in any sub folder) changes no existing
+    entry — a run folder may gain a sub folder (`a_run_0000/b`), its own kind and result stay -/
+theorem earlier_runs_unchanged_tree (t : RTree) (hwf : WFTree t) (base : Name) (payload : Nat) (p : RPath) (k : Kind)
+    (h : kindAt t p = some k) : kindAt (saveT t base payload).1 p = some k := by
+  rcases (optimize_stores_run t hwf base payload).2 with ⟨_, he⟩ | ⟨_, _, he⟩ | ⟨hacc, _, _⟩
+  · rw [he]; exact h
+  · rw [he]; exact h
+  · rw [saveT_eq t hwf base payload hacc]
+    cases hm : mkdirsT t [] (folderOf base) with
+    | none => exact h
+    | some t1 =>
+      simp only
+      rw [kindAt_setAt_ne]
+      · exact mkdirsT_keeps t t1 [] _ hm p k h
+      · intro hp; subst hp; rw [nextRunPath_absent t hwf base] at h; simp at h
+
+example : kindAt (saveT exTree "sub/m_run_0000/x".toList 9).1 ["sub".toList, "m_run_0000".toList] = some (.run 1) := by decide
+
+/-- **inside its folder the registry is the flat registry of part (b)**: the listing of the sub folder after the
+    run was stored is `save` applied to the listing before — so every theorem of part (b) about one results folder
+    (`other_names_unaffected`, `latest_after_save`, …) holds for the names that share a sub folder -/
+theorem folder_listing_after_save (t : RTree) (hwf : WFTree t) (base : Name) (payload : Nat)
+    (hacc : nameRejected base = false) (hfree : mkdirsT t [] (folderOf base) ≠ none) :
+    isDirAt (saveT t base payload).1 (folderOf base) = true ∧
+    listing (saveT t base payload).1 (folderOf base) = (save (listingAt t (folderOf base)) (leafOf base) payload).1 := by
+  cases hm : mkdirsT t [] (folderOf base) with
+  | none => exact absurd hm hfree
+  | some t1 => exact ⟨isDirAt_saveT t hwf base payload hacc t1 hm, listing_saveT t hwf base payload hacc t1 hm⟩
+
+/-- **latest is the most recent run of exactly that name**, sub folder included: right after a run of `base` was
+    stored, `get_result_path(base, latest=True)` / `load_result(base, latest=True)` resolve to it -/
+theorem latest_after_save_tree (t : RTree) (hwf : WFTree t) (base : Name) (payload : Nat)
+    (hacc : nameRejected base = false) (hfree : mkdirsT t [] (folderOf base) ≠ none) (hs : hasRunSuffix base = false) :
+    fallbackT (saveT t base payload).1 base true = .found (nextRunPath t base) false ∧
+    loadResultT (saveT t base payload).1 base true = .loaded (nextRunPath t base) payload false := by
+  obtain ⟨hd, hl⟩ := folder_listing_after_save t hwf base payload hacc hfree
+  have hk : kindAt (saveT t base payload).1 (nextRunPath t base) = some (.run payload) := by
+    rcases (optimize_stores_run t hwf base payload).2 with ⟨h, _⟩ | ⟨_, h, _⟩ | ⟨_, _, h⟩
+    · rw [hacc] at h; simp at h
+    · exact absurd h hfree
+    · exact h
+  have hla : listingAt (saveT t base payload).1 (folderOf base)
+      = (save (listingAt t (folderOf base)) (leafOf base) payload).1 := by
+    unfold listingAt; rw [hd]; simp only [if_true]
+    have := hl; unfold listingAt at this; exact this
+  have hdir : isDirAt (saveT t base payload).1 (nextRunPath t base) = true := by
+    unfold isDirAt nextRunPath
+    rw [dirChain_append]
+    have : dirChain (saveT t base payload).1 [] (folderOf base) = true := hd
+    rw [this]
+    simp only [dirChain, List.nil_append, Bool.and_true, Bool.true_and]
+    have hk' := hk; unfold nextRunPath at hk'
+    rw [hk']; rfl
+  have hf : fallbackT (saveT t base payload).1 base true = .found (nextRunPath t base) false := by
+    unfold fallbackT
+    simp only [hs, Bool.false_eq_true, if_false, hacc, hla, previous_save_self]
+    simp only [List.getLast?_append, List.getLast?_singleton, Option.some_or, Bool.not_true, lookupAt]
+    have : folderOf base ++ [createRunName (listingAt t (folderOf base)) (leafOf base)] = nextRunPath t base := rfl
+    rw [this, hdir]; rfl
+  exact ⟨hf, by simp [loadResultT, hf, loadFoundT, hk]⟩
+
+example : loadResultT (saveT exTree "sub/m".toList 9).1 "sub/m".toList true
+    = .loaded ["sub".toList, "m_run_0001".toList] 9 false := by decide
+
+/-- **an aborted save is never reused and never deleted**: a plugin fault in the middle of `save_result` leaves the
+    run folder without `result.yml`; the next optimisation of that name gets a strictly larger run number, is stored
+    in another folder, and the partial folder stays as it is -/
+theorem partial_run_never_reused (t : RTree) (hwf : WFTree t) (base : Name) (payload : Nat)
+    (hacc : nameRejected base = false) (hfree : mkdirsT t [] (folderOf base) ≠ none) :
+    let t' := (saveAbortedT t base).1
+    kindAt t' (nextRunPath t base) = some .emptyDir ∧
+    nextRunNumber t base < nextRunNumber t' base ∧
+    nextRunPath t' base ≠ nextRunPath t base ∧
+    (saveT t' base payload).2 = .saved (nextRunPath t' base) ∧
+    kindAt (saveT t' base payload).1 (nextRunPath t base) = some .emptyDir := by
+  cases hm : mkdirsT t [] (folderOf base) with
+  | none => exact absurd hm hfree
+  | some t1 =>
+    have hwf' := saveAbortedT_wf t hwf base
+    rw [saveAbortedT_eq t hwf base hacc, hm] at hwf' ⊢
+    simp only at hwf' ⊢
+    have hk := kindAt_setAt_self t1 (nextRunPath t base) .emptyDir
+    have hlt := nextRunNumber_after t t1 hwf base .emptyDir hm
+    have hne' : ∀ T' : RTree, nextRunNumber t base < nextRunNumber T' base → nextRunPath T' base ≠ nextRunPath t base := by
+      intro T' hlt' h
+      simp only [nextRunPath, nextRunLeaf_eq, List.append_cancel_left_eq, List.cons.injEq, and_true] at h
+      have := runName_inj _ _ _ h
+      omega
+    have hne := hne' _ hlt
+    have hd := isDirAt_after t t1 base .emptyDir hm
+    have hsaved : (saveT (setAt t1 (nextRunPath t base) .emptyDir) base payload).2
+        = .saved (nextRunPath (setAt t1 (nextRunPath t base) .emptyDir) base) := by
+      rcases (optimize_stores_run _ hwf' base payload).2 with ⟨h, _⟩ | ⟨_, h, _⟩ | ⟨_, h, _⟩
+      · rw [hacc] at h; simp at h
+      · rw [mkdirsT_of_dirChain _ [] _ hd] at h; simp at h
+      · exact h
+    exact ⟨hk, hlt, hne, hsaved, earlier_runs_unchanged_tree _ hwf' base payload _ _ hk⟩
+
+/-- the fault strikes the second optimisation of `sub/m`: `sub/m_run_0001` stays without result, the next run is 0002 -/
+example : (saveAbortedT exTree "sub/m".toList).2 = .blocked ["sub".toList, "m_run_0001".toList] ∧
+    kindAt (saveAbortedT exTree "sub/m".toList).1 ["sub".toList, "m_run_0001".toList] = some .emptyDir ∧
+    (saveT (saveAbortedT exTree "sub/m".toList).1 "sub/m".toList 9).2 = .saved ["sub".toList, "m_run_0002".toList] := by decide
+
+
+/-- the full statement "the latest-lookups load the most recent *stored* run" next to an aborted save: -/
+def LatestSkipsAbortedSaves : Prop :=
+  ∀ (t : RTree) (base : Name), WFTree t → loadResultT (saveAbortedT t base).1 base true = loadResultT t base true
+
+/-- it is false for the code (known finding `latest-after-aborted-save`): the latest-lookups take the newest run *folder*;
+    after an aborted save that is the partial folder, `get_latest_result_path` returns it and `load_latest_result` fails
+    until the next run is stored (`partial_run_never_reused`: that run gets a new folder, `latest_after_save_tree`: the
+    lookups then resolve to it) -/
+theorem latest_after_aborted_save_counterexample : ¬ LatestSkipsAbortedSaves := by
+  intro h
+  have := h exTree "sub/m".toList (wfTree_of_check exTree (by decide))
+  revert this
+  decide
+
+example : loadResultT exTree "sub/m".toList true = .loaded ["sub".toList, "m_run_0000".toList] 1 false ∧
+    loadResultT (saveAbortedT exTree "sub/m".toList).1 "sub/m".toList true = .broken ["sub".toList, "m_run_0001".toList] false ∧
+    fallbackT (saveAbortedT exTree "sub/m".toList).1 "sub/m".toList true = .found ["sub".toList, "m_run_0001".toList] false := by decide
 
 end Glotaran.C18
